@@ -59,6 +59,7 @@ def run(ck):
         else:
             key2 = rnd_bytes(r, 16)
         plain = rnd_bytes(r, r.choice([0, 5, 16, 50, 63, 64, 100, 130, 200]))
+        hseed = rnd_seed(r)
         for d in dirs.values():
             open(os.path.join(d, "p.bin"), "wb").write(plain)
         for i in range(nops):
@@ -66,7 +67,11 @@ def run(ck):
             cm, hm, T = r.randrange(5), r.randrange(3), r.choice([1, 2, 3, 4, 5, 16])
             if h in valid and r.random() < 0.6:
                 T = pre_meta[h][0]
-            if k == 0:
+            if k == 0 and i % 2 == 0:
+                # the SAME key and seed values as another operation of this history: the driver hands them to the library in the same
+                # buffers again (a caller keeping one key / seed buffer), with whatever the earlier operation left in them
+                ops.append((["enc", str(cm), str(hm), str(T), key.hex(), hseed.hex(), wv.hexs(rnd_bytes(r, r.choice([0, 10, 64, 150])))], "api-enc-same-key-and-seed-buffers"))
+            elif k == 0:
                 ops.append((["enc", str(cm), str(hm), str(T), key.hex(), rnd_seed(r).hex(), wv.hexs(rnd_bytes(r, r.choice([0, 10, 64, 150])))], "api-enc"))
             elif k in (9, 10):
                 ops.append((["enc", str(cm), str(hm), str(T), (key2 if i % 2 else key).hex(), rnd_seed(r).hex(), wv.hexs(rnd_bytes(r, r.choice([10, 64, 150])))], "api-enc-related-key"))
@@ -122,6 +127,9 @@ def run(ck):
             start = r.randrange(0, 3)
             at = r.randrange(0, len(ops) + 1)
             ops[at:at] = block[start:]
+        if h % 3 == 1:
+            for _ in range(2):
+                ops.insert(r.randrange(0, len(ops) + 1), (["enc", str(r.randrange(1, 5)), str(r.randrange(3)), str(r.choice([2, 3, 4])), key.hex(), hseed.hex(), wv.hexs(rnd_bytes(r, 2 * CH + 5))], "api-enc-same-key-and-seed-buffers"))
         hist_ops[h] = ops
         lines.append("h%d hist %s" % (h, ";".join(",".join(f.replace("{D}", dirs["hist"]) for f in fields) for fields, _ in ops)))
         for i, (fields, _) in enumerate(ops):
